@@ -730,6 +730,37 @@ pub fn run(suite: &str, thorough: bool, seed: u64, shard: usize, nshards: usize,
                     }
                 }
             }
+            // add_file over the size range of I/O buffers: valid UTF-8 files of about 20 KiB and 140 KiB whose
+            // middle is filled with 2-, 3- or 4-byte characters at every alignment, so that every power-of-two
+            // offset from 4 KiB to 128 KiB falls inside some character (a reader that decodes block-wise fails)
+            for (w, ch) in [(2usize, "é"), (3, "日"), (4, "🎉")] {
+                for align in 0..w {
+                    for target in [20 * 1024usize, 140 * 1024] {
+                        idx += 1;
+                        if !mine(idx) {
+                            continue;
+                        }
+                        let head = format!("package p;\n/* {}", "x".repeat(align));
+                        let tail = " */\ninterface A { void f(in Q q); }\n";
+                        let mut text = String::with_capacity(target + 64);
+                        text.push_str(&head);
+                        // make the first filler character start at an offset congruent to `align` modulo w
+                        while text.len() % w != align {
+                            text.push('y');
+                        }
+                        while text.len() + tail.len() < target {
+                            text.push_str(ch);
+                        }
+                        text.push_str(tail);
+                        let ops = vec![
+                            HOp::Add("i2".to_owned(), contents[1].to_owned()),
+                            HOp::AddFile("big.aidl".to_owned(), Some(text.into_bytes())),
+                            HOp::Validate,
+                        ];
+                        em.case((2000000 + idx) as u64, crate::store_ops::history_case(&ops, &dir));
+                    }
+                }
+            }
             // random long histories over generated projects
             let n = share(if thorough { 3000 } else { 60 });
             for _ in 0..n {
